@@ -397,7 +397,10 @@ class Rng:
     M = (1 << 64) - 1
 
     def __init__(self, seed):
+        # the state is a HASH of the seed (with s = seed * golden + c, seed+1 would replay seed's stream shifted by one)
         self.s = (seed * 0x9E3779B97F4A7C15 + 0x1234567) & self.M
+        h = self.next()
+        self.s = h ^ ((seed * 0xD6E8FEB86659FD93) & self.M)
 
     def next(self):
         self.s = (self.s + 0x9E3779B97F4A7C15) & self.M
